@@ -56,7 +56,7 @@ def Err.name : Err → String
 /-- why a run of the model did not produce a value -/
 inductive Fail where
   | err (e : Err)      -- the parser sets `ec`
-  | skip               -- outside the modelled fragment: a tag (major type 6) at an item start
+  | skip               -- outside the modelled fragment: a tag (major type 6) at an item start (or a list element that is not a uint8_t)
   | fuel               -- the fuel of the structural recursion ran out (never with `decode`'s fuel: Props.C07.model_fuel_suffices)
   deriving DecidableEq, Repr
 
@@ -177,8 +177,7 @@ mutual
         else (match readSize (ib :: s) with
           | .fail f => .fail f
           | .ok n s1 => match members maxDepth fuel (depth + 1) n s1 with | .ok ms r => .ok (.map ms) r | .fail f => .fail f)
-      else
-        -- major 7
+      else if major = 7 then
         if info = 20 then .ok (.bool false) s
         else if info = 21 then .ok (.bool true) s
         else if info = 22 then .ok .null s
@@ -186,6 +185,7 @@ mutual
         else if info = 25 then (match readUint64 (ib :: s) with | .ok b r => .ok (.half b) r | .fail f => .fail f)
         else if info = 26 ∨ info = 27 then (match readDouble (ib :: s) with | .ok b r => .ok (.dbl b) r | .fail f => .fail f)
         else .fail (.err .unknownType)                                     -- 0..19, 24, 28..30 and a stray break
+      else .fail .skip                                                     -- not a uint8_t
   /-- parse_mode::array: `index < length → ++index; read_item` -/
   def items (maxDepth : Nat) : Nat → Nat → Nat → Bytes → Res (List Item)
     | _, _, 0, s => .ok [] s
